@@ -20,7 +20,8 @@ From GV Require Import Spec.AGraph Spec.History Spec.ShortestPathDef Spec.Shorte
 From GV Require Import Proofs.AMapOk Proofs.WFDefs Proofs.WFNode Proofs.WFAdj Proofs.WFEdge Proofs.HistoryOk
      Proofs.AdjOk Proofs.QueryOk.
 From GV Require Import Proofs.ShortestPathOk Proofs.DijkstraLoopOk Proofs.DijkstraPathsOk Proofs.DijkstraTotalOk
-     Proofs.DijkstraNoErrOk Proofs.DijkstraModelOk Proofs.DijkstraNamesOk Proofs.DijkstraEntryOk Proofs.InvolvingOk.
+     Proofs.DijkstraNoErrOk Proofs.DijkstraModelOk Proofs.DijkstraNamesOk Proofs.DijkstraEntryOk Proofs.InvolvingOk
+     Proofs.DijkstraErrKind.
 Import ListNotations.
 
 (* ------------------------------------------------------------------ adjacency-list spec = relational spec *)
@@ -856,11 +857,20 @@ Section DijkstraWF.
     destruct Hci as [i' ->]. cbn [bind]. apply IH. intros k0 i0 Hin. apply Hall. right. exact Hin.
   Qed.
 
-  (* single_source: ANY weights, ANY names (absent: Err NodeNotFound), ANY cutoff *)
-  Theorem wf_single_source_fine (g : gstate) weighted source target cutoff fo wp :
-    WF g -> small_adj g -> fine (single_source teqb g weighted source target cutoff fo wp).
+  Lemma run_from_index_fine_adj (g : gstate) weighted si (target : option T) ti cutoff fo wp :
+    wf_adj g -> (si < n_of g)%nat -> fine (run_from_index g weighted si target ti cutoff fo wp).
   Proof.
-    intros W Hs. pose proof (WF_wf_adj g W Hs) as Ha. pose proof (WF_names_wf g W) as Hnm.
+    intros Ha Hsi. unfold run_from_index. destruct (can_use_basic target cutoff fo wp).
+    - apply (dijkstra_basic_fine g weighted (wf_len g Ha) (wf_range g Ha) (wf_small g Ha) si Hsi).
+    - apply (dijkstra_fine g weighted (wf_len g Ha) (wf_range g Ha) (wf_small g Ha) wp si ti cutoff fo Hsi).
+  Qed.
+
+  (* single_source: ANY weights, ANY names (absent: Err NodeNotFound), ANY cutoff — from the two
+     structural facts alone *)
+  Theorem single_source_fine_adj (g : gstate) weighted source target cutoff fo wp :
+    wf_adj g -> names_wf teqb g -> fine (single_source teqb g weighted source target cutoff fo wp).
+  Proof.
+    intros Ha Hnm.
     unfold single_source. apply fine_bind.
     - unfold get_node_index. destruct (lookup teqb source (nodes_map g)); exact I.
     - intros si Hsi. apply fine_bind.
@@ -868,62 +878,279 @@ Section DijkstraWF.
       + intros ti _. assert (Hlt : (si < n_of g)%nat).
         { unfold get_node_index in Hsi. destruct (lookup teqb source (nodes_map g)) as [j|] eqn:E; [|discriminate].
           inversion Hsi; subst j. apply (nw_map teqb g Hnm _ _ E). }
-        apply fine_bind; [apply wf_run_from_index_fine; assumption|].
+        apply fine_bind; [apply run_from_index_fine_adj; assumption|].
         intros r Hr. destruct (convert_total g r Hnm (run_from_index_indexes g weighted si target ti cutoff fo wp r Ha Hr)) as [m ->].
         exact I.
   Qed.
 
-  (* multi_source / all_pairs / get_all_shortest_paths_involving unwrap the per-source
-     Result, so a ContradictoryPaths (negative weights) IS a panic there
-     ([negative_weights_panic] below): totality needs non-negative stored weights. *)
-  Theorem wf_multi_source_fine threads (g : gstate) weighted sources target cutoff fo wp :
-    WF g -> small_adj g -> (weighted = true -> weights_nonneg g) -> cutoff_exceeded cutoff 0 = false ->
-    fine (multi_source teqb threads g weighted sources target cutoff fo wp).
+  Theorem wf_single_source_fine (g : gstate) weighted source target cutoff fo wp :
+    WF g -> small_adj g -> fine (single_source teqb g weighted source target cutoff fo wp).
+  Proof. intros W Hs. apply single_source_fine_adj; [apply WF_wf_adj; assumption | apply WF_names_wf; exact W]. Qed.
+
+  (* the per-source call on names that are present, ANY weights: a value, or Err ContradictoryPaths —
+     the only error left after the up-front name checks of multi_source / all_pairs *)
+  Theorem single_source_present_cases (g : gstate) weighted source target cutoff fo wp :
+    wf_adj g -> names_wf teqb g ->
+    (exists si, lookup teqb source (nodes_map g) = Some si) ->
+    (forall t, target = Some t -> exists i, lookup teqb t (nodes_map g) = Some i) ->
+    (exists m, single_source teqb g weighted source target cutoff fo wp = Ok m) \/
+    single_source teqb g weighted source target cutoff fo wp = Err ContradictoryPaths.
   Proof.
-    intros W Hs Hw Hc. destruct (forallb (in_names teqb g) sources) eqn:E1.
-    - assert (Hsrc : forall s, In s sources -> In s (names g)).
-      { intros s Hin. apply in_names_iff. rewrite forallb_forall in E1. apply E1. exact Hin. }
-      assert (Hok : (forall t, target = Some t -> In t (names g)) ->
-                    fine (multi_source teqb threads g weighted sources target cutoff fo wp)).
-      { intros Ht. destruct (wf_multi_source threads g weighted sources target cutoff fo wp W Hs Hw Hsrc Ht Hc) as [mm [-> _]]. exact I. }
-      destruct target as [t|]; [|apply Hok; discriminate].
-      destruct (in_names teqb g t) eqn:E2.
-      + apply Hok. intros t' E. inversion E; subst t'. apply in_names_iff. exact E2.
-      + unfold multi_source. rewrite (has_nodes_spec teqb tltb teqb_spec g sources W), E1. cbn [bind negb].
-        rewrite (has_node_spec teqb tltb teqb_spec g t W). unfold in_names in E2. rewrite E2. exact I.
-    - unfold multi_source. rewrite (has_nodes_spec teqb tltb teqb_spec g sources W), E1. exact I.
+    intros Ha Hnm [si Hsi] Ht. pose proof (single_source_fine_adj g weighted source target cutoff fo wp Ha Hnm) as F.
+    destruct (single_source teqb g weighted source target cutoff fo wp) as [m|k| |] eqn:E; cbn in F; try contradiction.
+    - left. eauto.
+    - right. f_equal. eapply (single_source_err_present teqb); eauto.
+  Qed.
+
+  (* multi_source / all_pairs collect the per-source `Result`s and propagate the error with `?`
+     (repair of F22; they used to `.unwrap()` it), get_all_shortest_paths_involving maps an `Err` of
+     all_pairs to the empty vector: totality for ANY weights, ANY names, ANY cutoff.  With a negative
+     weight the outcome may be Err ContradictoryPaths ([negative_weights_err]) — never a panic. *)
+  Lemma fine_omapM {X Y} (f : X -> outcome Y) l : (forall x, In x l -> fine (f x)) -> fine (omapM f l).
+  Proof.
+    induction l as [|x l IH]; intros H; cbn [omapM]; [exact I|].
+    apply fine_bind; [apply H; left; reflexivity|]. intros y _.
+    apply fine_bind; [apply IH; intros x' Hx'; apply H; right; exact Hx'|]. intros ys _. exact I.
+  Qed.
+
+  Theorem wf_multi_source_fine threads (g : gstate) weighted sources target cutoff fo wp :
+    WF g -> small_adj g -> fine (multi_source teqb threads g weighted sources target cutoff fo wp).
+  Proof.
+    intros W Hs. unfold multi_source. rewrite (has_nodes_spec teqb tltb teqb_spec g sources W). cbn [bind].
+    destruct (forallb (in_names teqb g) sources); cbn [negb]; [|exact I].
+    apply fine_bind.
+    - destruct target as [t|]; [|exact I]. rewrite (has_node_spec teqb tltb teqb_spec g t W). exact I.
+    - intros tb _. destruct (negb tb); [exact I|].
+      apply fine_bind; [|intros l _; exact I].
+      assert (F : forall one : T -> outcome (T * list (T * spinfo T)),
+                 (forall s, fine (one s)) -> fine (if parallel g threads then omapM one sources else omapM one sources)).
+      { intros one H. destruct (parallel g threads); apply fine_omapM; intros s _; apply H. }
+      apply F. intros s. apply fine_bind; [apply wf_single_source_fine; assumption | intros m _; exact I].
   Qed.
 
   Theorem wf_all_pairs_fine threads (g : gstate) weighted target cutoff fo wp :
-    WF g -> small_adj g -> (weighted = true -> weights_nonneg g) -> cutoff_exceeded cutoff 0 = false ->
-    fine (all_pairs teqb threads g weighted target cutoff fo wp).
+    WF g -> small_adj g -> fine (all_pairs teqb threads g weighted target cutoff fo wp).
   Proof.
-    intros W Hs Hw Hc.
-    assert (Hcore : (weighted = true -> edges_have_weight g = true) ->
-                    fine (all_pairs teqb threads g weighted target cutoff fo wp)).
-    { intros Hew.
-      assert (Hok : (forall t, target = Some t -> In t (names g)) ->
-                    fine (all_pairs teqb threads g weighted target cutoff fo wp)).
-      { intros Ht. destruct (wf_all_pairs threads g weighted target cutoff fo wp W Hs Hw Hew Ht Hc) as [mm [-> _]]. exact I. }
-      destruct target as [t|]; [|apply Hok; discriminate].
-      destruct (lookup teqb t (nodes_map g)) as [j|] eqn:E.
-      - apply Hok. intros t' Et. inversion Et; subst t'. apply name_at_In. exists j. apply (lookup_name_at g t j W). exact E.
-      - unfold all_pairs.
-        assert (H1 : (if weighted then ensure_weighted g else Ok tt) = Ok tt).
-        { destruct weighted; [|reflexivity]. unfold ensure_weighted. rewrite (Hew eq_refl). reflexivity. }
-        rewrite H1. cbn [bind]. unfold get_node_index. rewrite E. exact I. }
-    destruct weighted; [|apply Hcore; discriminate].
-    destruct (edges_have_weight g) eqn:E; [apply Hcore; reflexivity|].
-    rewrite (all_pairs_unweighted_store threads g target cutoff fo wp E). exact I.
+    intros W Hs. pose proof (WF_wf_adj g W Hs) as Ha. pose proof (WF_names_wf g W) as Hnm.
+    unfold all_pairs. apply fine_bind.
+    { destruct weighted; [|exact I]. unfold ensure_weighted. destruct (edges_have_weight g); exact I. }
+    intros _u _. 
+    assert (Hcore : forall ti,
+              match target with
+              | Some t => exists j, lookup teqb t (nodes_map g) = Some j /\ ti = Some j
+              | None => ti = None end ->
+              fine (do vecs <- (if parallel g threads
+                                then all_pairs_iter teqb g weighted target cutoff fo wp
+                                else all_pairs_iter teqb g weighted target cutoff fo wp);
+                    do l <- omapM (fun sv => do source_name <- name_of_index "dijkstra.rs:132" g (fst sv);
+                                             do m <- convert_shortest_path_info_vec_to_t_map teqb g (snd sv);
+                                             Ok (source_name, m)) vecs;
+                    Ok (collect_map teqb l))).
+    { intros ti Hti.
+      assert (Hif : (if parallel g threads
+                     then all_pairs_iter teqb g weighted target cutoff fo wp
+                     else all_pairs_iter teqb g weighted target cutoff fo wp) =
+                    all_pairs_iter teqb g weighted target cutoff fo wp) by (destruct (parallel g threads); reflexivity).
+      rewrite Hif. unfold all_pairs_iter.
+      assert (H3 : match target with
+                   | Some t => do i <- unwrap_result "dijkstra.rs:153" (get_node_index teqb g t); Ok (Some i)
+                   | None => Ok None end = Ok ti).
+      { destruct target as [t|]; [|congruence]. destruct Hti as [j [Hj ->]]. unfold get_node_index. rewrite Hj. reflexivity. }
+      rewrite H3. cbn [bind].
+      match goal with |- context [omapM ?f (seq 0 (n_of g))] => set (F1 := f) end.
+      apply fine_bind.
+      - apply fine_omapM. intros k Hk. apply in_seq in Hk. unfold F1.
+        apply fine_bind; [apply run_from_index_fine_adj; [exact Ha | lia] | intros r _; exact I].
+      - intros vecs Hv. apply fine_bind; [|intros l _; exact I].
+        apply fine_omapM. intros [k r] Hin. cbn [fst snd].
+        destruct (Forall2_in_r _ _ _ _ (omapM_ok _ _ F1 _ _ Hv) Hin) as [k' [Hk' Hone]].
+        apply in_seq in Hk'. unfold F1 in Hone. apply bind_ok in Hone. destruct Hone as [r' [Hr' E]].
+        inversion E; subst k' r'. clear E.
+        destruct (name_of_index_total g "dijkstra.rs:132" k Hnm ltac:(lia)) as [x ->]. cbn [bind].
+        destruct (convert_total g r Hnm (run_from_index_indexes g weighted k target ti cutoff fo wp r Ha Hr')) as [m ->].
+        exact I. }
+    destruct target as [t|].
+    - unfold get_node_index. destruct (lookup teqb t (nodes_map g)) as [j|] eqn:E; cbn [bind]; [|exact I].
+      apply (Hcore (Some j)). exists j. auto.
+    - cbn [bind]. apply (Hcore None). reflexivity.
   Qed.
 
+  (* no error channel (returns a Vec): `match all_pairs(..) { Err(_) => vec![], Ok(pairs) => .. }` —
+     an Err of all_pairs (EdgeWeightNotSpecified, ContradictoryPaths) becomes the empty vector *)
   Theorem wf_involving_fine threads (g : gstate) (x : T) weighted :
-    WF g -> small_adj g -> (weighted = true -> weights_nonneg g) ->
+    WF g -> small_adj g ->
     exists l, get_all_shortest_paths_involving teqb threads g x weighted = Ok l.
   Proof.
-    intros W Hs Hw. pose proof (wf_all_pairs_fine threads g weighted None None false true W Hs Hw eq_refl) as F.
+    intros W Hs. pose proof (wf_all_pairs_fine threads g weighted None None false true W Hs) as F.
     unfold get_all_shortest_paths_involving.
     destruct (all_pairs teqb threads g weighted None None false true); cbn in F; try contradiction; eauto.
+  Qed.
+
+  Lemma involving_of_err threads (g : gstate) (x : T) weighted k :
+    all_pairs teqb threads g weighted None None false true = Err k ->
+    get_all_shortest_paths_involving teqb threads g x weighted = Ok [].
+  Proof. intros H. unfold get_all_shortest_paths_involving. rewrite H. reflexivity. Qed.
+
+  (* ================================================================ the entry points agree, ANY weights
+     (C08 including the Err case): on a WF graph, with names that exist, multi_source / all_pairs return
+     EITHER the map of the per-source answers (every per-source call returned Ok) OR
+     Err ContradictoryPaths, and then some per-source call returns exactly that error; nothing else. *)
+  Theorem wf_multi_source_any threads (g : gstate) weighted sources target cutoff fo wp :
+    WF g -> small_adj g ->
+    (forall s, In s sources -> In s (names g)) ->
+    (forall t, target = Some t -> In t (names g)) ->
+    (exists mm,
+       multi_source teqb threads g weighted sources target cutoff fo wp = Ok mm /\
+       (forall s, In s sources -> exists m, single_source teqb g weighted s target cutoff fo wp = Ok m) /\
+       forall s m, lookup teqb s mm = Some m <->
+                   In s sources /\ single_source teqb g weighted s target cutoff fo wp = Ok m) \/
+    (multi_source teqb threads g weighted sources target cutoff fo wp = Err ContradictoryPaths /\
+     exists s, In s sources /\ single_source teqb g weighted s target cutoff fo wp = Err ContradictoryPaths).
+  Proof.
+    intros W Hs Hsrc Ht. pose proof (WF_wf_adj g W Hs) as Ha. pose proof (WF_names_wf g W) as Hnm.
+    assert (Ht' : forall t, target = Some t -> exists i, lookup teqb t (nodes_map g) = Some i).
+    { intros t E. apply (lookup_names g t W). apply Ht. exact E. }
+    unfold multi_source.
+    rewrite (has_nodes_spec teqb tltb teqb_spec g sources W).
+    assert (Hall : forallb (in_names teqb g) sources = true).
+    { apply forallb_forall. intros x Hx. apply in_names_iff. apply Hsrc. exact Hx. }
+    rewrite Hall. cbn [bind negb].
+    assert (Htb : match target with Some t => has_node teqb g t | None => Ok true end = Ok true).
+    { destruct target as [t|]; [|reflexivity]. rewrite (has_node_spec teqb tltb teqb_spec g t W). f_equal.
+      apply (in_names_iff g t). apply Ht. reflexivity. }
+    rewrite Htb. cbn [bind negb].
+    match goal with |- context [omapM ?f sources] => set (one := f) end.
+    assert (Hl : (exists l, omapM one sources = Ok l /\
+                   Forall2 (fun k sm => k = fst sm /\ single_source teqb g weighted (fst sm) target cutoff fo wp = Ok (snd sm)) sources l) \/
+                 (omapM one sources = Err ContradictoryPaths /\
+                  exists s, In s sources /\ single_source teqb g weighted s target cutoff fo wp = Err ContradictoryPaths)).
+    { clear Hall. induction sources as [|s ss IH]; [left; exists []; split; [reflexivity | constructor]|].
+      assert (Hsl : exists si, lookup teqb s (nodes_map g) = Some si)
+        by (apply (lookup_names g s W); apply Hsrc; left; reflexivity).
+      cbn [omapM]. unfold one at 1 3.
+      destruct (single_source_present_cases g weighted s target cutoff fo wp Ha Hnm Hsl Ht') as [[m Hm] | He].
+      - rewrite Hm. cbn [bind].
+        destruct IH as [[l [Hl F]] | [He [s' [Hs' He']]]]; [intros x Hx; apply Hsrc; right; exact Hx | |].
+        + left. exists ((s, m) :: l). rewrite Hl. split; [reflexivity|]. constructor; [split; [reflexivity | exact Hm] | exact F].
+        + right. rewrite He. split; [reflexivity|]. exists s'. split; [right; exact Hs' | exact He'].
+      - right. rewrite He. split; [reflexivity|]. exists s. split; [left; reflexivity | exact He]. }
+    assert (Hif : (if parallel g threads then omapM one sources else omapM one sources) = omapM one sources)
+      by (destruct (parallel g threads); reflexivity).
+    rewrite Hif. destruct Hl as [[l [Hl F]] | [He Hw]].
+    - left. rewrite Hl. cbn [bind]. exists (collect_map teqb l). split; [reflexivity|]. split.
+      + intros s Hin. destruct (Forall2_in_l _ _ _ _ F Hin) as [[s' m] [_ [E Hm]]]. cbn [fst snd] in *. subst s'. eauto.
+      + intros s m.
+        rewrite (collect_single_source g weighted target cutoff fo wp (fun k x => k = x) sources l); [| |exact F].
+        * split; [intros [[k [Hk ->]] H]; auto | intros [H1 H2]; split; [exists s; auto | exact H2]].
+        * intros k a b -> ->. reflexivity.
+    - right. rewrite He. split; [reflexivity | exact Hw].
+  Qed.
+
+  Lemma per_index_any (g : gstate) weighted (target : option T) ti cutoff fo wp i :
+    WF g -> small_adj g ->
+    match target with Some t => exists j, lookup teqb t (nodes_map g) = Some j /\ ti = Some j | None => ti = None end ->
+    (i < n_of g)%nat ->
+    exists x, name_at g i = Some x /\
+      ((exists r m, run_from_index g weighted i target ti cutoff fo wp = Ok r /\
+                    convert_shortest_path_info_vec_to_t_map teqb g r = Ok m /\
+                    single_source teqb g weighted x target cutoff fo wp = Ok m) \/
+       (run_from_index g weighted i target ti cutoff fo wp = Err ContradictoryPaths /\
+        single_source teqb g weighted x target cutoff fo wp = Err ContradictoryPaths)).
+  Proof.
+    intros W Hs Hti Hi. pose proof (WF_wf_adj g W Hs) as Ha. pose proof (WF_names_wf g W) as Hnm.
+    destruct (name_at_some g i Hi) as [x Hx]. exists x. split; [exact Hx|].
+    pose proof (proj2 (lookup_name_at g x i W) Hx) as Hl.
+    assert (Hss : single_source teqb g weighted x target cutoff fo wp =
+                  do r <- run_from_index g weighted i target ti cutoff fo wp;
+                  convert_shortest_path_info_vec_to_t_map teqb g r).
+    { unfold single_source, get_node_index. rewrite Hl. cbn [bind].
+      destruct target as [t|]; [destruct Hti as [j [Hj ->]]; rewrite Hj | subst ti]; reflexivity. }
+    pose proof (run_from_index_fine_adj g weighted i target ti cutoff fo wp Ha Hi) as F.
+    destruct (run_from_index g weighted i target ti cutoff fo wp) as [r|k| |] eqn:E; cbn in F; try contradiction.
+    - left. destruct (convert_total g r Hnm (run_from_index_indexes g weighted i target ti cutoff fo wp r Ha E)) as [m Hm].
+      exists r, m. split; [reflexivity|]. split; [exact Hm|]. rewrite Hss. cbn [bind]. exact Hm.
+    - right. assert (k = ContradictoryPaths) by (eapply run_from_index_err; eauto). subst k.
+      split; [reflexivity|]. rewrite Hss. reflexivity.
+  Qed.
+
+  Theorem wf_all_pairs_any threads (g : gstate) weighted target cutoff fo wp :
+    WF g -> small_adj g ->
+    (weighted = true -> edges_have_weight g = true) ->
+    (forall t, target = Some t -> In t (names g)) ->
+    (exists mm,
+       all_pairs teqb threads g weighted target cutoff fo wp = Ok mm /\
+       (forall s, In s (names g) -> exists m, single_source teqb g weighted s target cutoff fo wp = Ok m) /\
+       forall s m, lookup teqb s mm = Some m <->
+                   In s (names g) /\ single_source teqb g weighted s target cutoff fo wp = Ok m) \/
+    (all_pairs teqb threads g weighted target cutoff fo wp = Err ContradictoryPaths /\
+     exists s, In s (names g) /\ single_source teqb g weighted s target cutoff fo wp = Err ContradictoryPaths).
+  Proof.
+    intros W Hs Hew Ht. pose proof (WF_names_wf g W) as Hnm. unfold all_pairs.
+    assert (H1 : (if weighted then ensure_weighted g else Ok tt) = Ok tt).
+    { destruct weighted; [|reflexivity]. unfold ensure_weighted. rewrite (Hew eq_refl). reflexivity. }
+    rewrite H1. cbn [bind].
+    assert (Hti : exists ti, match target with
+                             | Some t => exists j, lookup teqb t (nodes_map g) = Some j /\ ti = Some j
+                             | None => ti = None end).
+    { destruct target as [t|]; [|exists None; reflexivity]. destruct (lookup_names g t W (Ht t eq_refl)) as [j Hj].
+      exists (Some j), j. auto. }
+    destruct Hti as [ti Hti].
+    assert (H2 : match target with Some t => do _ <- get_node_index teqb g t; Ok tt | None => Ok tt end = Ok tt).
+    { destruct target as [t|]; [|reflexivity]. destruct Hti as [j [Hj _]]. unfold get_node_index. rewrite Hj. reflexivity. }
+    rewrite H2. cbn [bind].
+    assert (H3 : match target with
+                 | Some t => do i <- unwrap_result "dijkstra.rs:153" (get_node_index teqb g t); Ok (Some i)
+                 | None => Ok None end = Ok ti).
+    { destruct target as [t|]; [|congruence]. destruct Hti as [j [Hj ->]]. unfold get_node_index. rewrite Hj. reflexivity. }
+    unfold all_pairs_iter. rewrite H3. cbn [bind].
+    match goal with |- context [omapM ?f (seq 0 (n_of g))] => set (F1 := f) end.
+    set (F2 := fun sv : nat * list (nat * spinfo nat) =>
+                 do source_name <- name_of_index "dijkstra.rs:132" g (fst sv);
+                 do m <- convert_shortest_path_info_vec_to_t_map teqb g (snd sv);
+                 Ok (source_name, m)).
+    assert (Hl : forall ks, (forall k, In k ks -> (k < n_of g)%nat) ->
+              (exists vecs l, omapM F1 ks = Ok vecs /\ omapM F2 vecs = Ok l /\
+                Forall2 (fun k sm => name_at g k = Some (fst sm) /\
+                                     single_source teqb g weighted (fst sm) target cutoff fo wp = Ok (snd sm)) ks l) \/
+              (omapM F1 ks = Err ContradictoryPaths /\
+               exists k x, In k ks /\ name_at g k = Some x /\
+                           single_source teqb g weighted x target cutoff fo wp = Err ContradictoryPaths)).
+    { induction ks as [|k ks IH]; intros Hks; [left; exists [], []; split; [reflexivity|]; split; [reflexivity | constructor]|].
+      destruct (per_index_any g weighted target ti cutoff fo wp k W Hs Hti (Hks k (or_introl eq_refl)))
+        as [x [Hx [[r [m [Hr [Hcv Hm]]]] | [Hr He]]]].
+      - destruct IH as [[vecs [l [Hv [Hl F]]]] | [Hv [k' [x' [Hk' [Hx' He']]]]]]; [intros k' Hk'; apply Hks; right; exact Hk' | |].
+        + left. exists ((k, r) :: vecs), ((x, m) :: l). split; [|split].
+          * cbn [omapM]. unfold F1 at 1. rewrite Hr. cbn [bind]. rewrite Hv. reflexivity.
+          * cbn [omapM]. unfold F2 at 1. cbn [fst snd].
+            rewrite (proj2 (name_of_index_name g "dijkstra.rs:132" k x)) by (rewrite (name_name_at g k W); exact Hx).
+            cbn [bind]. rewrite Hcv. cbn [bind]. rewrite Hl. reflexivity.
+          * constructor; [split; [exact Hx | exact Hm] | exact F].
+        + right. split.
+          * cbn [omapM]. unfold F1 at 1. rewrite Hr. cbn [bind]. rewrite Hv. reflexivity.
+          * exists k', x'. split; [right; exact Hk' | auto].
+      - right. split.
+        + cbn [omapM]. unfold F1 at 1. rewrite Hr. reflexivity.
+        + exists k, x. split; [left; reflexivity | auto]. }
+    assert (Hif : forall Z0 (a : outcome Z0), (if parallel g threads then a else a) = a)
+      by (intros Z0 a; destruct (parallel g threads); reflexivity).
+    rewrite Hif.
+    destruct (Hl (seq 0 (n_of g))) as [[vecs [l [Hv [Hll F]]]] | [Hv [k [x [Hk [Hx He]]]]]]; [intros k Hk; apply in_seq in Hk; lia | |].
+    - left. rewrite Hv. cbn [bind]. fold F2. rewrite Hll. cbn [bind]. exists (collect_map teqb l). split; [reflexivity|].
+      assert (Hchar : forall s m, lookup teqb s (collect_map teqb l) = Some m <->
+                        In s (names g) /\ single_source teqb g weighted s target cutoff fo wp = Ok m).
+      { intros s m.
+        rewrite (collect_single_source g weighted target cutoff fo wp (fun k x => name_at g k = Some x) (seq 0 (n_of g)) l); [| |exact F].
+        - split; intros [H H']; (split; [|exact H']).
+          + destruct H as [k [_ Hk]]. apply name_at_In. exists k. exact Hk.
+          + apply name_at_In in H. destruct H as [k Hk]. exists k. split; [|exact Hk].
+            apply in_seq. pose proof (name_at_lt_n g k s Hk). lia.
+        - intros k a b Ha' Hb. congruence. }
+      split; [|exact Hchar].
+      intros s Hin. apply name_at_In in Hin. destruct Hin as [k Hk].
+      assert (Hkin : In k (seq 0 (n_of g))) by (apply in_seq; pose proof (name_at_lt_n g k s Hk); lia).
+      destruct (Forall2_in_l _ _ _ _ F Hkin) as [[s' m] [_ [Hs' Hm]]]. cbn [fst snd] in *.
+      assert (s' = s) by congruence. subst s'. eauto.
+    - right. rewrite Hv. split; [reflexivity|]. exists x. split; [apply name_at_In; exists k; exact Hx | exact He].
   Qed.
 
   (* ---- executable forms of the two premises, for concrete graphs ---- *)
